@@ -81,7 +81,8 @@ def join (args : List String) (obs : String) : Verdict :=
     checker := if chk == "nil" then none else if chk == "acc" then some (fun _ _ _ => none) else some (fun _ _ _ => some reason)
     ouuid := fun _ => ouuid
     statusJson := fun _ => [] }
-  let s := Gate.run cfg 32 (Gate.initJoin name host port)
+  let claimed := if getKV args "auth" == "-" || getKV args "auth" == "" then Gate.zeroUUID else getHex args "auth"
+  let s := Gate.run cfg 32 (Gate.initJoin name claimed host port)
   let cRes := match s.client.phase with
     | .joined => "joined"
     | .failed (.disconnect r) => "disconnect:" ++ hexOfBytes r
@@ -100,6 +101,9 @@ def join (args : List String) (obs : String) : Verdict :=
     match s.c2sLog with
     | ⟨_, .handshake p _ _ _⟩ :: ⟨_, .loginHello n _⟩ :: _ => s!"{hexOfBytes n}:{hexOfBytes (cfg.ouuid n)}:{p}"
     | _ => "-"
+  let hUuid := match s.c2sLog with
+    | _ :: ⟨_, .loginHello _ u⟩ :: _ => hexOfBytes u
+    | _ => "-"
   let inPlay := joined && sRes == "play"
   let evs : List (Gate.PlayEv PP) :=
     if inPlay then c2s.map .cSend ++ s2c.map .sSend ++ c2s.map (fun _ => .sRead) ++ s2c.map (fun _ => .cRead) else []
@@ -108,7 +112,7 @@ def join (args : List String) (obs : String) : Verdict :=
     if inPlay then ps.map fun p => frameStr (decide (thr ≥ 0)) p.id (some p.len) else []
   let cs := s.c2sLog.map gateFrameStr ++ playTrace s.client.thr c2s
   let sc := s.s2cLog.map gateFrameStr ++ playTrace s.server.thr s2c
-  let model := s!"c={cRes} s={sRes} cname={cName} cuuid={cId} sname={sName} suuid={sId} sproto={sProto} chk={chkSeen} " ++
+  let model := s!"c={cRes} s={sRes} cname={cName} cuuid={cId} sname={sName} suuid={sId} sproto={sProto} chk={chkSeen} huuid={hUuid} " ++
     s!"cs={joinList cs} sc={joinList sc} rs={joinList (pl.sRecv.map PP.recv)} rc={joinList (pl.cRecv.map PP.recv)}"
   -- ---------------- spec oracle on the implementation's observation (from the property statement)
   let toks := obs.splitOn " "
@@ -125,13 +129,17 @@ def join (args : List String) (obs : String) : Verdict :=
       if fs.length != ids.length then some s!"frame count {fs.length}, expected {ids.length}"
       else bad.map fun ((f, k), _) => s!"frame {k} is {f}"
   let firstSome (xs : List (Option String)) : Option String := xs.findSome? id
+  -- the login checker is consulted with the name, the OFFLINE uuid of the name (whatever the hello claimed) and the
+  -- client's protocol number
+  let chkWant : Option String :=
+    if chk == "nil" then none else want "chk" s!"{hexOfBytes name}:{hexOfBytes ouuid}:{getKV args "cproto"}"
   let spec : Option String :=
     if obs == "panic" || obs == "hang" then some ("join run: " ++ obs) else
     if chk == "ref" then
-      firstSome [want "c" ("disconnect:" ++ hexOfBytes reason), want "s" "nologin",
+      firstSome [want "c" ("disconnect:" ++ hexOfBytes reason), want "s" "nologin", chkWant,
         schedule (o "sc") 1 ((if t ≥ 0 then [3] else []) ++ [0])]
     else
-      firstSome [want "c" "joined", want "s" "play",
+      firstSome [want "c" "joined", want "s" "play", chkWant,
         want "cname" (hexOfBytes name), want "sname" (hexOfBytes name),
         want "cuuid" (hexOfBytes ouuid), want "suuid" (hexOfBytes ouuid), want "sproto" (getKV args "cproto"),
         want "rs" (joinList (c2s.map PP.recv)), want "rc" (joinList (s2c.map PP.recv)),
@@ -227,7 +235,6 @@ partial def oracleRun (regs : List (Bool × RegE)) : List (Int × Nat) → List 
           let rec many : List (Int × Nat) → List String → Option (List String × Option (String × Bool))
             | [], acc => some (acc, none)
             | (i, k') :: ps, acc =>
-              if i < 0 || i ≥ 124 then none else
               match oracleOne regs i k' with
               | (l, some h) => some (acc ++ l, some (s!"handler:{h}:{i}", !ps.isEmpty))
               | (l, none) => many ps (acc ++ l)
@@ -235,8 +242,9 @@ partial def oracleRun (regs : List (Bool × RegE)) : List (Int × Nat) → List 
           | none => none
           | some (acc', some (e, dr)) => some ⟨acc', e, after', dr⟩
           | some (acc', none) => oracleRun regs after' acc'
-    else if id < 0 || id ≥ 124 then none
     else
+      -- "each received packet" goes to the generic handlers: also one whose id no specific handler can be registered
+      -- for (`oracleOrder` then has no id-specific part, registrations with such ids being invalid)
       match oracleOne regs id k with
       | (l, some h) => some ⟨acc ++ l, s!"handler:{h}:{id}", rest, false⟩
       | (l, none) => oracleRun regs rest (acc ++ l)
@@ -366,7 +374,7 @@ def bot (args : List String) (obs : String) : Verdict :=
     else if tok.startsWith "F" then [.send .finishConfig]
     else []
   let (_, frames) := Gate.applyActs (-1) acts
-  let s0 := Gate.initJoin name (asciiBytes "localhost") 25565
+  let s0 := Gate.initJoin name Gate.zeroUUID (asciiBytes "localhost") 25565
   let s1 : Gate.Sys := { s0 with s2c := frames }
   let s := (List.range frames.length).foldl (fun st _ => Gate.deliverToClient st) s1
   let joined := s.client.phase == .joined
